@@ -15,6 +15,9 @@ def classify(res, scs, reps, mons):
             res.violations.append(dict(signature=sig, what='panic inside GoChannel: ' + p, case=case()))
         for h in sc.get('hung') or []:
             res.violations.append(dict(signature='C07/hang:' + h, what=h, case=case()))
+        for kind, text in G.liveness_verdicts(sc, rp['mapped']):
+            if kind == 'cancel-not-completed':
+                res.violations.append(dict(signature='C07/cancel-not-completed', what=text, case=case()))
         if sc.get('leaked'):
             res.violations.append(dict(signature='C07/goroutine-leak', what='%d Pub/Sub goroutine(s) alive after Close returned and every context was cancelled' % sc['leaked'],
                                        case=dict(case(), dump=(sc.get('leak_dump') or '')[:1500])))
